@@ -862,7 +862,7 @@ def run(ctx: Ctx) -> int:
         rows = []
         for i, (focus, vals, skip) in enumerate(cases):
             trail = b"" if ctx.rng.random() < 0.5 else ctx.rng.randbytes(ctx.rng.randrange(1, 4))
-            row = run_case(i, focus, vals, trail, ctx.rng, skip)
+            row = run_case(f"c{i}", focus, vals, trail, ctx.rng, skip)
             rows.append(row)
             v0 = vals[0]
             ctx.distinct((focus, len(vals), v0["k"], v0["cls"], v0["pc"], v0["num"], leaf_class(v0) if v0["k"] != "cons" else depth_of(v0),
